@@ -106,7 +106,9 @@ def strat_map(with_rot=False):
                 if abs(slope) * length > 6:
                     slope = math.copysign(6.0 / length, slope)
                 r = dict(x0=x0, x1=x0 + length, y=float(y) + draw(st.sampled_from([0.0, 0.3, 0.5])), slope=slope,
-                         asc=float(draw(st.integers(2, 12))) + draw(st.sampled_from([0.0, 0.25])), desc=float(draw(st.integers(1, 6))),
+                         asc=(float(draw(st.integers(2, 12))) + draw(st.sampled_from([0.0, 0.25]))
+                              if draw(st.integers(0, 5)) else draw(st.sampled_from([0.0, 0.5, 25.0, 40.0]))),
+                         desc=float(draw(st.integers(1, 6))) if draw(st.integers(0, 5)) else draw(st.sampled_from([0.0, 0.5, 15.0])),
                          amp=draw(st.sampled_from([1.0, 0.8])), ends=draw(st.booleans()) and length >= 12)
                 ridges.append(r)
                 # optionally a second ridge in the same band, well separated horizontally
@@ -298,7 +300,7 @@ def body_detect(ctx, case):
     # every coordinate refers to the original image
     for arr in list(b_list) + list(t_list) + list(p_list):
         a = np.asarray(arr, dtype=np.float64)
-        pad = 14 * ds + 40
+        pad = (max([14.0] + [max(r["asc"], r["desc"]) + 2 for r in case["ridges"]])) * ds + 40
         ctx.check(np.all(a[:, 0] >= -pad) and np.all(a[:, 0] <= Wo + pad) and np.all(a[:, 1] >= -pad) and np.all(a[:, 1] <= Ho + pad),
                   "coordinates_outside_original_image", lambda: "%r for page %dx%d; " % (a.tolist(), Wo, Ho) + desc())
     ctx.check(len(p_list) >= 1 or not b_list, "no_region_polygons", desc)
